@@ -181,7 +181,7 @@ fn d_step<S: Src>(s: &mut S, tag: u8, tail: Tail, sh: Shape) {
     cx.new_addrs = 1 + upd.is_some() as usize;
     cx.may_die = dies_by_update || dies_by_msg;
     cx.may_change_identity = cx.may_die;
-    cx.must_die = dies_by_update || (dies_by_msg && (!sender_active || pre.conn != ConnectionState::Undead));
+    cx.must_die = (dies_by_update || dies_by_msg) && pre.conn != ConnectionState::Undead;
     cx.may_bump = refutes;
     cx.relay_dst = relay;
     post_common(&pre, &post, &f, &rt, cx);
